@@ -57,3 +57,16 @@ Print Assumptions C04_misplaced_data_reported.
 Theorem C04_complete_traversal_ends_at_message_end : stmt_trav_message_enc''.
 Proof. exact trav_message_enc''. Qed.
 Print Assumptions C04_complete_traversal_ends_at_message_end.
+
+From Sbepp Require Import Compile CompileSpec CompileProofs.
+
+(* for EVERY schema level the layout model accepts, the generator's cursor
+   accessor table exists and satisfies wf_clevel -- the hypothesis of the
+   traversal theorem -- so that theorem applies to every accepted schema *)
+Theorem C04_accepted_schema_cursor_table_exists : stmt_compile_clevel_total.
+Proof. exact compile_clevel_total. Qed.
+Print Assumptions C04_accepted_schema_cursor_table_exists.
+
+Theorem C04_accepted_schema_cursor_table_consistent : stmt_compile_clevel_wf.
+Proof. exact compile_clevel_wf. Qed.
+Print Assumptions C04_accepted_schema_cursor_table_consistent.
